@@ -90,7 +90,7 @@ def c07(tier):
     v = Verdict("C07", tier)
     vlib.build_harness()
     wd = workdir("C07")
-    n = 4 if tier == "quick" else 5
+    n = 5 if tier == "quick" else 6
     fam = [
         Scn("drop", pol="PolDrop", max_inv=n),
         Scn("queue", pol="PolQueue", max_inv=n),
@@ -115,6 +115,71 @@ def c07(tier):
     return v.finish()
 
 
+def c09(tier):
+    v = Verdict("C09", tier)
+    vlib.build_harness()
+    wd = workdir("C09")
+    n = 7 if tier == "quick" else 8
+    fam = [
+        Scn("life", menu="MenuLife", start="StartLife", tx="TxLin", pol="PolQueue", max_inv=n, max_t=10),
+        Scn("life2stages", menu="MenuLife", start="StartLife", stages="Stages212", tx="TxZero", max_inv=n - 1, max_t=10),
+        Scn("transit", topo="T2", menu="MenuTrans", start="StartTrans", tx="TxLin", pol="PolQueue", max_inv=n, max_t=10),
+    ]
+    for s in fam:
+        run_scn(v, wd, "C09", s)
+    v.cov["rule"] = ("lifecycle scripts chosen by TLC: module b shuts down / shuts down and restarts (after 0, 1, 2 ticks) from message "
+                     "handlers while a keeps sending and scheduling (messages in transit at shutdown, arrivals at the restart instant, "
+                     "repeated cycles, one- and two-stage start-up); a transit module c going down while a sends through its gate. The "
+                     "observation log (handlers with incarnation numbers, reset calls, restart stages at the restart time) must equal "
+                     "the interpreter's. Non-trivial = >= 3 deliveries")
+    v.cov["exhaustive"] = True
+    v.assumptions = ["async tasks and timers of a shut-down module are covered by the C05/C06 suite",
+                     "a shutdown requested in start-up stage i of a module with more stages is kept out of the menus (DESIGN C09)"]
+    return v.finish()
+
+
+def c13(tier):
+    v = Verdict("C13", tier)
+    vlib.build_harness()
+    wd = workdir("C13")
+    n = 6 if tier == "quick" else 7
+    fam = [
+        Scn("panic", menu="MenuPanic", start="StartPanic", tx="TxZero", max_inv=n, max_t=8),
+        Scn("panic_catchB", menu="MenuPanic", start="StartPanic", tx="TxZero", catch="CatchB", max_inv=n, max_t=8),
+        Scn("panic_pe", menu="MenuPanic", start="StartPanic", tx="TxLin", pol="PolQueue", stack="Stack012", max_inv=n - 1, max_t=8),
+    ]
+    for s in fam:
+        run_scn(v, wd, "C13", s)
+    v.cov["rule"] = ("panic placements chosen by TLC: any module x at_sim_start / handle_message x any occurrence, several panicking modules, "
+                     "catching and non-catching stereotypes, panics after the handler already emitted messages; the simulation must not "
+                     "abort, the panicked module receives nothing further, every other module's observations equal the interpreter's "
+                     "(where a panicked module is simply inactive), run() reports exactly the non-catching panicked modules, and the next "
+                     "scenario runs in the same process (global state stays usable)")
+    v.cov["exhaustive"] = True
+    return v.finish()
+
+
+def c14(tier):
+    v = Verdict("C14", tier)
+    vlib.build_harness()
+    wd = workdir("C14")
+    n = 6 if tier == "quick" else 7
+    fam = [
+        Scn("pe2", menu="MenuPE", start="StartPE", tx="TxZero", stack="Stack2", max_inv=n, max_t=8),
+        Scn("pe012", menu="MenuPE", start="StartPE", tx="TxLin", pol="PolQueue", stack="Stack012", max_inv=n, max_t=8),
+        Scn("pe2_2stages", menu="MenuPE", start="StartPE", tx="TxZero", stack="Stack2", stages="Stages212", max_inv=n, max_t=8),
+    ]
+    for s in fam:
+        run_scn(v, wd, "C14", s)
+    v.cov["rule"] = ("processing stacks of 0, 1 and 2 elements (first element from the simulation-wide default stack, further ones appended "
+                     "by Module::stack), every message tagged by TLC with the element that consumes it (or none): event_start / incoming / "
+                     "handler / event_end entries of every start-up stage, message and tear-down must equal the interpreter's bracket "
+                     "structure")
+    v.cov["exhaustive"] = True
+    v.assumptions = ["brackets around timer wake-ups are checked for well-formedness in the async suite"]
+    return v.finish()
+
+
 def _replay(prop, path):
     vlib.build_harness()
     wd = workdir(prop + "_replay")
@@ -135,3 +200,15 @@ def _replay(prop, path):
 
 def c07_replay(path):
     return _replay("C07", path)
+
+
+def c09_replay(path):
+    return _replay("C09", path)
+
+
+def c13_replay(path):
+    return _replay("C13", path)
+
+
+def c14_replay(path):
+    return _replay("C14", path)
